@@ -250,6 +250,11 @@ def rule_agreement(ck, rid="C13.R4"):
             mn = repo.method(cls, "min_rate")
             mfl = flow_of(mn)
             comps = [c for c in walk_local(mn.node) if isinstance(c, ast.ListComp) or isinstance(c, ast.GeneratorExp)]
+            # a list filled by an append loop is normalised to the equivalent comprehension by the expansion
+            for rn in [x for x in mfl.cfg.nodes if x.kind == "return" and x.expr is not None]:
+                for sub in ast.walk(mfl.expand(rn.expr, rn)):
+                    if isinstance(sub, (ast.ListComp, ast.GeneratorExp)):
+                        comps.append(sub)
             ok = False
             for c in comps:
                 g = c.generators[0]
